@@ -268,12 +268,17 @@ def colour_rule(ck, facts):
                   for c in clos for b in c.blocks for st in b["s"]) or any(re.search(r"num::<impl u64>::wrapping_add$", n) for n in names)
         bad = [n for n in names if re.search(r"::dedup\w*$|::sort\w*$|iter::Iterator::(fold|enumerate|rev|skip|take|last|position)$|Vec::<T, A>::push$", n)]
         hq = [n for n in names if n.endswith("hash_quad_with") or n.endswith("hash_triple_with")]
+        if bad:
+            ck.bad("R7.4", "R7.4@%s::make_map#combination" % mod, "the colour of a node goes through an order-dependent step (%s) over its "
+                   "statements' hashes: colours must not depend on statement order" % [b.split("::")[-1] for b in bad], fn.loc)
         if xor:
             ck.bad("R7.4", "R7.4@%s::make_map#xor-cancels" % mod, "the colour of a node is the XOR of its statements' hashes: two statements that "
                    "hash alike (a node pointing with the same predicate to two nodes of the same colour) cancel each other, so nodes "
                    "already distinguished are merged again, the refinement is not monotone and the class count can oscillate for "
                    "ever (isomorphic_graphs(g, g) never returns for a 17-node graph: findings/C07_refinement_never_terminates.rs)", fn.loc)
-        elif add and hq and not bad:
+        elif bad:
+            pass
+        elif add and hq:
             ck.ok("R7.4", "%s::make_map: colour = wrapping sum over the node's statements of hash_*_with (commutative, not self-cancelling, no "
                   "order-dependent step)" % mod)
         else:
